@@ -22,8 +22,8 @@ def ensure_deps():
 
 def ambient_for(index, replay=None):
     """Process-wide conditions a shard runs under.  They are rotated over the shards (deterministically, by shard index), so
-    that an answer which depends on the string-hash seed (set / dict-of-set iteration order) or on the current directory
-    (a data file opened by a relative path) meets more than the one combination the pinned tests run under.  A witness
+    that an answer which depends on the string-hash seed (set / dict-of-set iteration order), on the current directory
+    (a data file opened by a relative path) or on assert statements being executed (python -O strips them) meets more than the one combination the pinned tests run under.  A witness
     records the conditions of its shard and --replay restores them."""
     if replay:
         try:
@@ -33,8 +33,8 @@ def ambient_for(index, replay=None):
                         return w['ambient']
         except Exception:
             pass
-        return {'hashseed': '0', 'cwd': core.VERIF}
-    return {'hashseed': str(index % 5), 'cwd': [core.VERIF, core.REPO, '/'][index % 3]}
+        return {'hashseed': '0', 'cwd': core.VERIF, 'optimize': False}
+    return {'hashseed': str(index % 5), 'cwd': [core.VERIF, core.REPO, '/'][index % 3], 'optimize': index % 4 == 3}
 
 
 def run_shard(prop, tier, seed, spec, timeout, replay=None, index=0):
@@ -46,7 +46,7 @@ def run_shard(prop, tier, seed, spec, timeout, replay=None, index=0):
     env['VERIF_AMBIENT'] = json.dumps(amb)
     env['PYTHONPATH'] = core.VERIF
     env['VERIF_REPO'] = core.REPO
-    cmd = ['/venv/bin/python', '-X', 'faulthandler', '-m', 'vf.worker', prop, tier, str(seed), json.dumps(spec), out]
+    cmd = ['/venv/bin/python', '-X', 'faulthandler'] + (['-O'] if amb.get('optimize') else []) + ['-m', 'vf.worker', prop, tier, str(seed), json.dumps(spec), out]
     if replay:
         cmd.append(replay)
     t = time.time()
